@@ -31,6 +31,10 @@ func serveGroupRun(line string) (string, string) {
 		return serveRun(line)
 	case "servecs":
 		return serveRun("serve" + line[len("servecs"):])
+	case "servecsc":
+		// the same with the response cache enabled: what a client gets back in its OPT record must
+		// not depend on who asked before
+		return serveRunCache("serve"+line[len("servecsc"):], dnsserver.CacheConfig{Enabled: true, LRUSize: 1024})
 	case "loc":
 		return locRun(f)
 	case "frame":
@@ -101,6 +105,26 @@ func c10gen(g *gen, tier string, w *bufio.Writer) {
 			}
 		}
 		fmt.Fprintln(w, "servecs"+serveOpLine(df, qs)[len("serve"):])
+		// cache on: the same question from clients with different OPT / client-subnet options
+		var qc []*query
+		for _, q := range qs[:12] {
+			for k, n := 0, 2+g.intn(2); k < n; k++ {
+				v := *q
+				v.opt, v.ecs, v.extraOpt = false, nil, 0
+				switch g.intn(4) {
+				case 0:
+				case 1:
+					v.opt = true
+				default:
+					v.opt = true
+					e := &ecsSpec{family: 1, source: []int{8, 16, 24, 32}[g.intn(4)]}
+					e.addr = maskBytes(net.ParseIP(g.pick([]string{"10.1.0.0", "10.77.3.0", "192.168.0.0", "9.9.9.0"})).To4(), e.source)
+					v.ecs = e
+				}
+				qc = append(qc, &v)
+			}
+		}
+		fmt.Fprintln(w, "servecsc"+serveOpLine(df, qc)[len("serve"):])
 	}
 }
 
